@@ -1,6 +1,586 @@
-(* C11 - placeholder: theorems are added with Proofs/BuildProofs.v *)
-From Xeh Require Import Model.Prelude Model.Vm.
+(* C11 - meta blocks `#( e #)` and the compiler front end (Model/Build.v).
 
-Theorem C11_next_stopped : forall nf s, is_running s = false -> next nf s = ROk tt s.
-Proof. intros nf s H. unfold next. rewrite H. reflexivity. Qed.
-Check C11_next_stopped : forall nf s, is_running s = false -> next nf s = ROk tt s.
+   Property: a program containing a meta block behaves like the program with the block replaced
+   by the literal value(s) it evaluates to; the block cannot see or change the surrounding data
+   stack or any variable; after it closes only the constants it defined remain; compiling a
+   source executes nothing outside its meta blocks.
+
+   Vocabulary (definitions in Proofs/Meta*.v, imported below):
+   - [is_meta s]: the current context of s is a meta context.  [wfm s]: every stack is at least
+     as long as its mark in the current context.  [mpre s] = both.
+   - [keeps n l l']: the last n cells of stack l (the part below mark n) are the last n of l'.
+   - [sealed s s']: heap, context stack and all marks of the current context unchanged (only the
+     instruction pointer may move) and every stack (data, return, loop, special, flow) keeps
+     what is below its mark.
+   - [opened s]: the state after `#(`.  [results s]: the cells above the data mark, top first.
+     [close_state s1 prev]: the state after `#)`, computed from the state s1 the block's code ran
+     to: code / debug map cut to the code mark, dictionary purged from the dictionary mark
+     ([purge_all]), one load-literal instruction per result when [emit_flag s1 prev], context prev.
+   - [rpatch c c']: c' is c except where a late-bound call OResolve was resolved in place.
+     [cpatch d d']: d' is d except where `const` overwrote the value of an existing constant.
+   - [Pre2 cs di s]: invariant of a state inside a meta context with code mark cs and dictionary
+     mark di (marks reached, debug map covers the code, every pending control structure points at
+     or above the marks).  [R2 cs di s s'] = [sealed] + code / debug map / dictionary below the
+     marks unchanged up to [rpatch] / [cpatch] + the invariant again.
+   - [tstep f s s']: build1 processes one token (runs pending code in meta mode, reads the token,
+     acts on it).  [anystep] = some f.  [bpath d s x]: x is reached from s by token steps that
+     never go below context depth d.  [seg s x]: such a sequence with balanced nested blocks.
+   - [Pre5 s] / [R5 s s']: the same for a context that is NOT a meta context, with no
+     user-defined immediate word in the dictionary: data stack, context, context stack unchanged,
+     heap extended by nil cells only.
+   - [sw h' s]: s with the hidden part of the data stack (its last [length h'] cells) replaced
+     by h'.  [comm h' m]: m (sw h' s) = res_map (sw h') (m s) whenever the mark is [length h'].
+
+   FINDINGS (model behaviour, checked against the implementation, that contradicts the text):
+   1. `.s` prints the whole data stack, including the part hidden from the block.
+   2. A block nested directly in a block shares the enclosing block's data stack (the mark is
+      inherited): it sees (`depth`) and can consume (`drop`) the values computed so far.
+   3. A block inside a word definition inside a block compiles ALL values above the inherited
+      mark into the definition - also those the enclosing block computed before the definition.
+   4. (D18) A block nested in a block is not compiled in place unless a word is being defined:
+      its values are pushed at once.  Inside a pending builder ( [ ] , if, do ... ) of the
+      enclosing block they therefore arrive before the values around them: `#( [ 1 #( 2 #) 3 ] #)`
+      is `[ 1 3 ] 2`.  Exact condition: [emit_flag] = enclosing context is not a meta context,
+      or the top pending entry of the enclosing context is a definition.
+   5. Several results are compiled last-result-first at top level but stay in order when the
+      enclosing context is a meta context.
+   6. The purge does not keep the definition order of the constants (swap_remove).
+   Code and dictionary before the block can change in two benign ways ([rpatch], [cpatch]).
+   NOT proved: the literal equation "eval = compile followed by run" (only: eval = quiet build
+   phase, then run, C11_eval_phases); independence of the hidden stack is proved for
+   native words, machine steps, runs and the immediate words of the builder separately, not
+   for a whole token step in one statement. *)
+From Xeh Require Import Model.Prelude Model.Bits Model.Codec Model.Cell Model.Lexer Model.Fmt
+                        Model.Vm Model.Words Model.Build Model.Boot.
+From Xeh Require Import Proofs.VmLimits Proofs.NoPanicBuild
+                        Proofs.MetaBase Proofs.MetaPurge Proofs.MetaBuild Proofs.MetaClose Proofs.MetaPrefix
+                        Proofs.MetaPrefixBuild Proofs.MetaPrefixWords Proofs.MetaBlock Proofs.MetaSeg
+                        Proofs.MetaInline Proofs.MetaCompile Proofs.MetaCompile2 Proofs.MetaNI
+                        Proofs.MetaNIWords Proofs.MetaNIBuild Proofs.MetaSummary Proofs.MetaFindings.
+From Coq Require Import Permutation.
+Local Notation length := List.length.
+Local Open Scope string_scope.
+Local Open Scope list_scope.
+
+(* ================= 2. sealed variables ================= *)
+
+(* in meta mode every read, store and allocation of a variable fails and changes nothing *)
+Theorem C11_variables_sealed : forall s, is_meta s ->
+  (forall a, get_var a s = RErr EConst None s) /\
+  (forall a v, set_var a v s = RErr EConst None s) /\
+  (forall v, alloc_heap v s = RErr EConst None s).
+Proof. exact variables_sealed. Qed.
+Check C11_variables_sealed : forall s, is_meta s ->
+  (forall a, get_var a s = RErr EConst None s) /\
+  (forall a v, set_var a v s = RErr EConst None s) /\
+  (forall v, alloc_heap v s = RErr EConst None s).
+
+(* ================= 1. + 2. the machine inside a meta context ================= *)
+
+(* every native word: heap, contexts, marks unchanged, nothing below a mark touched *)
+Theorem C11_native_word_sealed : forall fo w f, native_fn fo w = Some f ->
+  forall s, mpre s -> res_all (sealed s) (f s).
+Proof. exact native_word_sealed. Qed.
+Check C11_native_word_sealed : forall fo w f, native_fn fo w = Some f ->
+  forall s, mpre s -> res_all (sealed s) (f s).
+
+Theorem C11_opcode_sealed : forall fo ip0 op s, mpre s ->
+  res_all (sealed s) (exec_op (native_fn fo) ip0 op s).
+Proof. exact opcode_sealed. Qed.
+Check C11_opcode_sealed : forall fo ip0 op s, mpre s ->
+  res_all (sealed s) (exec_op (native_fn fo) ip0 op s).
+
+Theorem C11_machine_step_sealed : forall fo s, mpre s ->
+  res_all (sealed s) (fetch_and_run (native_fn fo) s).
+Proof. exact far_sealed. Qed.
+Check C11_machine_step_sealed : forall fo s, mpre s ->
+  res_all (sealed s) (fetch_and_run (native_fn fo) s).
+
+Theorem C11_run_sealed : forall fo fuel s, mpre s ->
+  match run (native_fn fo) fuel s with Some r => res_all (sealed s) r | None => True end.
+Proof. exact run_sealed. Qed.
+Check C11_run_sealed : forall fo fuel s, mpre s ->
+  match run (native_fn fo) fuel s with Some r => res_all (sealed s) r | None => True end.
+
+Theorem C11_steps_sealed : forall fo n s s', mpre s -> steps (native_fn fo) n s = Some s' -> sealed s s'.
+Proof. exact steps_sealed. Qed.
+Check C11_steps_sealed : forall fo n s s', mpre s -> steps (native_fn fo) n s = Some s' -> sealed s s'.
+
+(* the builder: every immediate word of the table except #( #) ~) , and user-defined immediate
+   words (interpreted), and the run of pending code *)
+Theorem C11_immediate_word_sealed : forall fo pr rf fuel name w,
+  immediate_fn fo pr rf fuel name = Some w -> ctx_word name = false ->
+  forall s, mpre s -> res_all (sealed s) (w s).
+Proof. exact fps_immediate_fn. Qed.
+Check C11_immediate_word_sealed : forall fo pr rf fuel name w,
+  immediate_fn fo pr rf fuel name = Some w -> ctx_word name = false ->
+  forall s, mpre s -> res_all (sealed s) (w s).
+
+Theorem C11_user_immediate_sealed : forall fo pr rf fuel x s, mpre s ->
+  res_all (sealed s) (run_immediate fo pr rf fuel (FInterp x) s).
+Proof. exact fps_run_interp. Qed.
+Check C11_user_immediate_sealed : forall fo pr rf fuel x s, mpre s ->
+  res_all (sealed s) (run_immediate fo pr rf fuel (FInterp x) s).
+
+(* the result of a machine step does not depend on the hidden cells - except through `.s` *)
+Theorem C11_native_word_hidden_independent : forall h' fo w f,
+  native_fn fo w = Some f -> w <> ".s" ->
+  forall s, wfd h' s -> f (sw h' s) = res_map (sw h') (f s) /\ res_all (wfd h') (f s).
+Proof. exact native_comm. Qed.
+Check C11_native_word_hidden_independent : forall h' fo w f,
+  native_fn fo w = Some f -> w <> ".s" ->
+  forall s, wfd h' s -> f (sw h' s) = res_map (sw h') (f s) /\ res_all (wfd h') (f s).
+
+Theorem C11_machine_step_hidden_independent : forall h' fo s, wfd h' s -> ~ shows_stack s ->
+  fetch_and_run (native_fn fo) (sw h' s) = res_map (sw h') (fetch_and_run (native_fn fo) s) /\
+  res_all (wfd h') (fetch_and_run (native_fn fo) s).
+Proof. exact far_comm. Qed.
+Check C11_machine_step_hidden_independent : forall h' fo s, wfd h' s -> ~ shows_stack s ->
+  fetch_and_run (native_fn fo) (sw h' s) = res_map (sw h') (fetch_and_run (native_fn fo) s) /\
+  res_all (wfd h') (fetch_and_run (native_fn fo) s).
+
+(* whole runs of code that contains no call of `.s` and no late-bound call *)
+Theorem C11_run_hidden_independent : forall h' fo fuel s, wfd h' s -> quiet_code (code s) ->
+  run (native_fn fo) fuel (sw h' s) =
+  match run (native_fn fo) fuel s with Some r => Some (res_map (sw h') r) | None => None end.
+Proof. exact run_comm. Qed.
+Check C11_run_hidden_independent : forall h' fo fuel s, wfd h' s -> quiet_code (code s) ->
+  run (native_fn fo) fuel (sw h' s) =
+  match run (native_fn fo) fuel s with Some r => Some (res_map (sw h') r) | None => None end.
+
+(* the builder's own actions: every immediate word of the table except #( #) ~) *)
+Theorem C11_immediate_word_hidden_independent : forall h' fo pr rf fuel name w,
+  immediate_fn fo pr rf fuel name = Some w -> ctx_word name = false ->
+  forall s, wfd h' s -> w (sw h' s) = res_map (sw h') (w s) /\ res_all (wfd h') (w s).
+Proof. exact immediate_comm. Qed.
+Check C11_immediate_word_hidden_independent : forall h' fo pr rf fuel name w,
+  immediate_fn fo pr rf fuel name = Some w -> ctx_word name = false ->
+  forall s, wfd h' s -> w (sw h' s) = res_map (sw h') (w s) /\ res_all (wfd h') (w s).
+
+(* finding 1 *)
+Theorem C11_hidden_stack_unobservable_refuted :
+  (wfd [CInt 8] sm /\ w_display_stack (sw [CInt 8] sm) <> res_map (sw [CInt 8]) (w_display_stack sm)) /\
+  out_of (ev "#( .s #)" s9) <> out_of (ev "#( .s #)" (set_ds s9 [CInt 8])).
+Proof. exact hidden_stack_observable. Qed.
+Check C11_hidden_stack_unobservable_refuted :
+  (wfd [CInt 8] sm /\ w_display_stack (sw [CInt 8] sm) <> res_map (sw [CInt 8]) (w_display_stack sm)) /\
+  out_of (ev "#( .s #)" s9) <> out_of (ev "#( .s #)" (set_ds s9 [CInt 8])).
+
+(* ================= 3. opening and closing ================= *)
+
+Theorem C11_open : forall s, context_open MMeta s = ROk tt (opened s).
+Proof. exact context_open_meta. Qed.
+Check C11_open : forall s, context_open MMeta s = ROk tt (opened s).
+
+(* (b) the purge *)
+Theorem C11_purge_dict : forall d di, di <= length d ->
+  purge_dict (S (length d)) d di = firstn di d ++ purge_all (skipn di d) /\
+  Forall (fun e => is_dconst e = true) (purge_all (skipn di d)) /\
+  Permutation (purge_all (skipn di d)) (filter is_dconst (skipn di d)).
+Proof. exact purge_dict_summary. Qed.
+Check C11_purge_dict : forall d di, di <= length d ->
+  purge_dict (S (length d)) d di = firstn di d ++ purge_all (skipn di d) /\
+  Forall (fun e => is_dconst e = true) (purge_all (skipn di d)) /\
+  Permutation (purge_all (skipn di d)) (filter is_dconst (skipn di d)).
+
+Theorem C11_purge_keeps_order_when_constants_first : forall a b,
+  Forall (fun e => is_dconst e = true) a -> Forall (fun e => is_dconst e = false) b ->
+  purge_all (a ++ b) = a.
+Proof. exact purge_all_tail. Qed.
+Check C11_purge_keeps_order_when_constants_first : forall a b,
+  Forall (fun e => is_dconst e = true) a -> Forall (fun e => is_dconst e = false) b ->
+  purge_all (a ++ b) = a.
+
+(* finding 6 *)
+Theorem C11_purge_keeps_order_refuted :
+  new_dict (ev "#( : w ; 1 const a 2 const b #)" boot) =
+    Some [mkdent "b" (DConst (CInt 2)); mkdent "a" (DConst (CInt 1))] /\
+  new_dict (ev "#( 1 const a 2 const b : w ; #)" boot) =
+    Some [mkdent "a" (DConst (CInt 1)); mkdent "b" (DConst (CInt 2))].
+Proof. exact purge_reorders. Qed.
+Check C11_purge_keeps_order_refuted :
+  new_dict (ev "#( : w ; 1 const a 2 const b #)" boot) =
+    Some [mkdent "b" (DConst (CInt 2)); mkdent "a" (DConst (CInt 1))] /\
+  new_dict (ev "#( 1 const a 2 const b : w ; #)" boot) =
+    Some [mkdent "a" (DConst (CInt 1)); mkdent "b" (DConst (CInt 2))].
+
+(* closing a meta context whose code ran to s1 *)
+Theorem C11_close : forall fo rf s prev rest s1,
+  nested s = prev :: rest -> is_meta s ->
+  run_m fo rf (set_nested s rest) = ROk tt s1 -> closable s1 ->
+  context_close fo rf s = ROk tt (close_state s1 prev).
+Proof. exact context_close_meta. Qed.
+Check C11_close : forall fo rf s prev rest s1,
+  nested s = prev :: rest -> is_meta s ->
+  run_m fo rf (set_nested s rest) = ROk tt s1 -> closable s1 ->
+  context_close fo rf s = ROk tt (close_state s1 prev).
+
+(* from the invariant at `#)`: every outcome of the close *)
+Theorem C11_close_from_invariant : forall fo rf cs di s prev rest,
+  Pre2 cs di s -> nested s = prev :: rest ->
+  match run_m fo rf (set_nested s rest) with
+  | ROk _ s1 => context_close fo rf s = ROk tt (close_state s1 prev) /\ R2 cs di (set_nested s rest) s1
+  | RErr k p s1 => context_close fo rf s = RErr k p s1
+  | RPanic => context_close fo rf s = RPanic
+  | RUnsup => context_close fo rf s = RUnsup
+  end.
+Proof. exact close_from_pre. Qed.
+Check C11_close_from_invariant : forall fo rf cs di s prev rest,
+  Pre2 cs di s -> nested s = prev :: rest ->
+  match run_m fo rf (set_nested s rest) with
+  | ROk _ s1 => context_close fo rf s = ROk tt (close_state s1 prev) /\ R2 cs di (set_nested s rest) s1
+  | RErr k p s1 => context_close fo rf s = RErr k p s1
+  | RPanic => context_close fo rf s = RPanic
+  | RUnsup => context_close fo rf s = RUnsup
+  end.
+
+(* every field of the closed state *)
+Theorem C11_close_state : forall s1 prev,
+  let c := cx s1 in
+  let res := if emit_flag s1 prev then results s1 else [] in
+  let t := close_state s1 prev in
+  cx t = prev /\ nested t = nested s1 /\ heap t = heap s1 /\
+  code t = firstn (cs_len c) (code s1) ++ map load_value_opcode res /\
+  dbg t = firstn (cs_len c) (dbg s1) ++ repeat (loc_of s1) (length res) /\
+  dict t = firstn (di_len c) (dict s1) ++ purge_all (skipn (di_len c) (dict s1)) /\
+  ds t = (if emit_flag s1 prev then lastn (ds_len c) (ds s1) else ds s1) /\
+  rlog t = log_pops res (rlog s1) /\
+  rs t = rs s1 /\ flows t = flows s1 /\ loops t = loops s1 /\ special t = special s1 /\
+  sources t = sources s1 /\ input t = input s1 /\ meter t = meter s1 /\
+  insn_limit t = insn_limit s1 /\ heap_limit t = heap_limit s1 /\ stack_limit t = stack_limit s1 /\
+  out t = out s1 /\ last_tok t = last_tok s1 /\ stopping t = stopping s1.
+Proof. exact close_state_fields. Qed.
+Check C11_close_state : forall s1 prev,
+  let c := cx s1 in
+  let res := if emit_flag s1 prev then results s1 else [] in
+  let t := close_state s1 prev in
+  cx t = prev /\ nested t = nested s1 /\ heap t = heap s1 /\
+  code t = firstn (cs_len c) (code s1) ++ map load_value_opcode res /\
+  dbg t = firstn (cs_len c) (dbg s1) ++ repeat (loc_of s1) (length res) /\
+  dict t = firstn (di_len c) (dict s1) ++ purge_all (skipn (di_len c) (dict s1)) /\
+  ds t = (if emit_flag s1 prev then lastn (ds_len c) (ds s1) else ds s1) /\
+  rlog t = log_pops res (rlog s1) /\
+  rs t = rs s1 /\ flows t = flows s1 /\ loops t = loops s1 /\ special t = special s1 /\
+  sources t = sources s1 /\ input t = input s1 /\ meter t = meter s1 /\
+  insn_limit t = insn_limit s1 /\ heap_limit t = heap_limit s1 /\ stack_limit t = stack_limit s1 /\
+  out t = out s1 /\ last_tok t = last_tok s1 /\ stopping t = stopping s1.
+
+(* ================= token steps ================= *)
+
+(* a successful build is a chain of token steps ended by the end of the input *)
+Theorem C11_build1_path : forall fo pr rf f d s s', build1 fo pr rf f d s = ROk tt s' ->
+  exists x s1, bpath fo pr rf 0 s x /\ pre_run fo rf x = ROk tt s1 /\ get_token pr s1 = ROk BEnd s' /\
+               depth s' = d /\ has_pending_flow s' = false.
+Proof. exact build1_path. Qed.
+Check C11_build1_path : forall fo pr rf f d s s', build1 fo pr rf f d s = ROk tt s' ->
+  exists x s1, bpath fo pr rf 0 s x /\ pre_run fo rf x = ROk tt s1 /\ get_token pr s1 = ROk BEnd s' /\
+               depth s' = d /\ has_pending_flow s' = false.
+
+(* inside a meta context every token step keeps the frame of the context, or opens a nested
+   block, or closes the context (#) or ~) ) *)
+Theorem C11_token_step_in_meta : forall fo pr rf cs di f s s', Pre2 cs di s -> tstep fo pr rf f s s' ->
+  R2 cs di s s' \/ (exists s2, R2 cs di s s2 /\ s' = opened s2) \/ closes fo rf cs di s s'.
+Proof. exact tstep_cls. Qed.
+Check C11_token_step_in_meta : forall fo pr rf cs di f s s', Pre2 cs di s -> tstep fo pr rf f s s' ->
+  R2 cs di s s' \/ (exists s2, R2 cs di s s2 /\ s' = opened s2) \/ closes fo rf cs di s s'.
+
+(* ================= 6. nesting ================= *)
+
+(* token steps that never leave the depth they started at and end at it are balanced ... *)
+Theorem C11_bracket_matching : forall fo pr rf cs di s x,
+  Pre2 cs di s -> bpath fo pr rf (depth s) s x -> depth x = depth s -> seg fo pr rf s x.
+Proof. exact bpath_seg. Qed.
+Check C11_bracket_matching : forall fo pr rf cs di s x,
+  Pre2 cs di s -> bpath fo pr rf (depth s) s x -> depth x = depth s -> seg fo pr rf s x.
+
+(* ... and a balanced sequence, with blocks nested to any depth, keeps the frame of its context *)
+Theorem C11_nested_blocks_keep_frame : forall fo pr rf s s', seg fo pr rf s s' ->
+  forall cs di, Pre2 cs di s -> R2 cs di s s'.
+Proof. exact seg_R2. Qed.
+Check C11_nested_blocks_keep_frame : forall fo pr rf s s', seg fo pr rf s s' ->
+  forall cs di, Pre2 cs di s -> R2 cs di s s'.
+
+(* every state inside a block opened in t (at any depth below): meta mode, heap of t, stacks of t
+   below the marks *)
+Theorem C11_block_interior : forall fo pr rf t x,
+  wfm t -> cd_inv t -> bpath fo pr rf (S (depth t)) (opened t) x ->
+  is_meta x /\ heap x = heap t /\
+  keeps (ds_len (open_ctx t)) (ds t) (ds x) /\ keeps (length (rs t)) (rs t) (rs x) /\
+  keeps (length (loops t)) (loops t) (loops x) /\ keeps (length (special t)) (special t) (special x) /\
+  keeps (length (flows t)) (flows t) (flows x).
+Proof. exact block_interior. Qed.
+Check C11_block_interior : forall fo pr rf t x,
+  wfm t -> cd_inv t -> bpath fo pr rf (S (depth t)) (opened t) x ->
+  is_meta x /\ heap x = heap t /\
+  keeps (ds_len (open_ctx t)) (ds t) (ds x) /\ keeps (length (rs t)) (rs t) (rs x) /\
+  keeps (length (loops t)) (loops t) (loops x) /\ keeps (length (special t)) (special t) (special x) /\
+  keeps (length (flows t)) (flows t) (flows x).
+
+(* ================= 3. the whole block, arbitrary contents ================= *)
+
+(* opened in t (any mode, any depth); u any state reached inside; t' the first state outside *)
+Theorem C11_block : forall fo pr rf t u t',
+  wfm t -> cd_inv t ->
+  bpath fo pr rf (S (depth t)) (opened t) u -> anystep fo pr rf u t' -> depth t' <= depth t ->
+  exists w1 tc,
+    (t' = tc \/ exists txt, t' = interned txt tc) /\ tc = close_state w1 (cx t) /\
+    let n := ds_len (open_ctx t) in
+    let res := if emit_flag w1 (cx t) then results w1 else [] in
+    cx tc = cx t /\ nested tc = nested t /\ heap tc = heap t /\ flows tc = flows t /\
+    (exists c', rpatch (code t) c' /\ code tc = c' ++ map load_value_opcode res) /\
+    (exists d', cpatch (dict t) d' /\ dict tc = d' ++ purge_all (skipn (length (dict t)) (dict w1))) /\
+    dbg tc = firstn (length (code t)) (dbg t) ++ repeat (loc_of w1) (length res) /\
+    keeps n (ds t) (ds w1) /\
+    ds tc = (if emit_flag w1 (cx t) then lastn n (ds t) else ds w1) /\
+    keeps (length (rs t)) (rs t) (rs tc) /\ keeps (length (loops t)) (loops t) (loops tc) /\
+    keeps (length (special t)) (special t) (special tc) /\
+    emit_flag w1 (cx t) = negb (mode_eqb (cmode (cx t)) MMeta) || building_fun t (cx t).
+Proof. exact block_full. Qed.
+Check C11_block : forall fo pr rf t u t',
+  wfm t -> cd_inv t ->
+  bpath fo pr rf (S (depth t)) (opened t) u -> anystep fo pr rf u t' -> depth t' <= depth t ->
+  exists w1 tc,
+    (t' = tc \/ exists txt, t' = interned txt tc) /\ tc = close_state w1 (cx t) /\
+    let n := ds_len (open_ctx t) in
+    let res := if emit_flag w1 (cx t) then results w1 else [] in
+    cx tc = cx t /\ nested tc = nested t /\ heap tc = heap t /\ flows tc = flows t /\
+    (exists c', rpatch (code t) c' /\ code tc = c' ++ map load_value_opcode res) /\
+    (exists d', cpatch (dict t) d' /\ dict tc = d' ++ purge_all (skipn (length (dict t)) (dict w1))) /\
+    dbg tc = firstn (length (code t)) (dbg t) ++ repeat (loc_of w1) (length res) /\
+    keeps n (ds t) (ds w1) /\
+    ds tc = (if emit_flag w1 (cx t) then lastn n (ds t) else ds w1) /\
+    keeps (length (rs t)) (rs t) (rs tc) /\ keeps (length (loops t)) (loops t) (loops tc) /\
+    keeps (length (special t)) (special t) (special tc) /\
+    emit_flag w1 (cx t) = negb (mode_eqb (cmode (cx t)) MMeta) || building_fun t (cx t).
+
+(* seen from an enclosing meta context the whole block is one more step of that context *)
+Theorem C11_block_in_meta : forall cs di t w1,
+  Pre2 cs di t -> R2 (length (code t)) (length (dict t)) (inner t) w1 -> flows w1 = flows t ->
+  R2 cs di t (close_state w1 (cx t)).
+Proof. exact block_R2. Qed.
+Check C11_block_in_meta : forall cs di t w1,
+  Pre2 cs di t -> R2 (length (code t)) (length (dict t)) (inner t) w1 -> flows w1 = flows t ->
+  R2 cs di t (close_state w1 (cx t)).
+
+(* ================= 4. inlining ================= *)
+
+(* the block was opened outside any meta context: the state after the block and the state after
+   compiling the result values vs (top of stack first) as literals in t agree on code (up to
+   resolved late-bound calls), heap, data stack, context, context stack, flow stack; the
+   dictionary gained constants only; the other stacks only grew.  Not compared: debug map
+   (token spans), sources / input / last token (the text consumed), meter, out, reverse log,
+   limits, stopping flag. *)
+Theorem C11_block_inline : forall fo pr rf t u t',
+  wfm t -> cd_inv t -> cmode (cx t) <> MMeta ->
+  bpath fo pr rf (S (depth t)) (opened t) u -> anystep fo pr rf u t' -> depth t' <= depth t ->
+  exists vs ts tc,
+    emit_values vs t = ROk tt ts /\
+    (t' = tc \/ exists txt, t' = interned txt tc) /\
+    rpatch (code ts) (code tc) /\ heap tc = heap ts /\ ds tc = ds ts /\
+    cx tc = cx ts /\ nested tc = nested ts /\ flows tc = flows ts /\
+    (exists d' k, cpatch (dict ts) d' /\ dict tc = d' ++ k /\ Forall (fun e => is_dconst e = true) k) /\
+    (exists a, rs tc = a ++ rs ts) /\ (exists a, loops tc = a ++ loops ts) /\
+    (exists a, special tc = a ++ special ts).
+Proof. exact block_inline. Qed.
+Check C11_block_inline : forall fo pr rf t u t',
+  wfm t -> cd_inv t -> cmode (cx t) <> MMeta ->
+  bpath fo pr rf (S (depth t)) (opened t) u -> anystep fo pr rf u t' -> depth t' <= depth t ->
+  exists vs ts tc,
+    emit_values vs t = ROk tt ts /\
+    (t' = tc \/ exists txt, t' = interned txt tc) /\
+    rpatch (code ts) (code tc) /\ heap tc = heap ts /\ ds tc = ds ts /\
+    cx tc = cx ts /\ nested tc = nested ts /\ flows tc = flows ts /\
+    (exists d' k, cpatch (dict ts) d' /\ dict tc = d' ++ k /\ Forall (fun e => is_dconst e = true) k) /\
+    (exists a, rs tc = a ++ rs ts) /\ (exists a, loops tc = a ++ loops ts) /\
+    (exists a, special tc = a ++ special ts).
+
+(* no late-bound call in the code before the block: the code is exactly that of the literals *)
+Theorem C11_block_inline_exact : forall fo pr rf t u t',
+  wfm t -> cd_inv t -> cmode (cx t) <> MMeta -> no_resolve (code t) ->
+  bpath fo pr rf (S (depth t)) (opened t) u -> anystep fo pr rf u t' -> depth t' <= depth t ->
+  exists vs ts tc,
+    emit_values vs t = ROk tt ts /\ (t' = tc \/ exists txt, t' = interned txt tc) /\
+    code tc = code ts /\ heap tc = heap ts /\ ds tc = ds ts /\ cx tc = cx ts /\
+    nested tc = nested ts /\ flows tc = flows ts.
+Proof. exact block_inline_exact. Qed.
+Check C11_block_inline_exact : forall fo pr rf t u t',
+  wfm t -> cd_inv t -> cmode (cx t) <> MMeta -> no_resolve (code t) ->
+  bpath fo pr rf (S (depth t)) (opened t) u -> anystep fo pr rf u t' -> depth t' <= depth t ->
+  exists vs ts tc,
+    emit_values vs t = ROk tt ts /\ (t' = tc \/ exists txt, t' = interned txt tc) /\
+    code tc = code ts /\ heap tc = heap ts /\ ds tc = ds ts /\ cx tc = cx ts /\
+    nested tc = nested ts /\ flows tc = flows ts.
+
+(* findings 2 - 5: blocks nested in blocks are not the literals they evaluate to *)
+Theorem C11_nested_block_isolated_refuted :
+  ds_of (ev "#( depth #)" boot) = ds_of (ev "0" boot) /\
+  ds_of (ev "#( 7 #( depth #) #)" boot) <> ds_of (ev "#( 7 0 #)" boot).
+Proof. exact nested_block_sees_enclosing. Qed.
+Check C11_nested_block_isolated_refuted :
+  ds_of (ev "#( depth #)" boot) = ds_of (ev "0" boot) /\
+  ds_of (ev "#( 7 #( depth #) #)" boot) <> ds_of (ev "#( 7 0 #)" boot).
+
+Theorem C11_nested_block_in_definition_refuted :
+  ds_of (ev "#( 1 #)" boot) = ds_of (ev "1" boot) /\
+  ds_of (ev "#( 5 : f #( 1 #) ; f #)" boot) <> ds_of (ev "#( 5 : f 1 ; f #)" boot).
+Proof. exact nested_block_in_definition. Qed.
+Check C11_nested_block_in_definition_refuted :
+  ds_of (ev "#( 1 #)" boot) = ds_of (ev "1" boot) /\
+  ds_of (ev "#( 5 : f #( 1 #) ; f #)" boot) <> ds_of (ev "#( 5 : f 1 ; f #)" boot).
+
+Theorem C11_nested_block_in_builder_refuted :
+  ds_of (ev "#( 2 #)" boot) = ds_of (ev "2" boot) /\
+  ds_of (ev "#( [ 1 #( 2 #) 3 ] #)" boot) = Some [CInt 2; CVec [CInt 1; CInt 3]] /\
+  ds_of (ev "#( [ 1 2 3 ] #)" boot) = Some [CVec [CInt 1; CInt 2; CInt 3]].
+Proof. exact nested_block_in_builder. Qed.
+Check C11_nested_block_in_builder_refuted :
+  ds_of (ev "#( 2 #)" boot) = ds_of (ev "2" boot) /\
+  ds_of (ev "#( [ 1 #( 2 #) 3 ] #)" boot) = Some [CInt 2; CVec [CInt 1; CInt 3]] /\
+  ds_of (ev "#( [ 1 2 3 ] #)" boot) = Some [CVec [CInt 1; CInt 2; CInt 3]].
+
+Theorem C11_nested_block_order_refuted :
+  ds_of (ev "#( 1 2 #)" boot) = ds_of (ev "2 1" boot) /\
+  ds_of (ev "#( #( 1 2 #) #)" boot) <> ds_of (ev "#( 2 1 #)" boot) /\
+  ds_of (ev "#( #( 1 2 #) #)" boot) = ds_of (ev "#( 1 2 #)" boot).
+Proof. exact nested_block_order. Qed.
+Check C11_nested_block_order_refuted :
+  ds_of (ev "#( 1 2 #)" boot) = ds_of (ev "2 1" boot) /\
+  ds_of (ev "#( #( 1 2 #) #)" boot) <> ds_of (ev "#( 2 1 #)" boot) /\
+  ds_of (ev "#( #( 1 2 #) #)" boot) = ds_of (ev "#( 1 2 #)" boot).
+
+(* ================= 5. compile executes nothing outside meta blocks ================= *)
+
+(* a token step outside a meta context, no user-defined immediate word in the dictionary *)
+Theorem C11_token_step_outside_meta : forall fo pr rf f s s', Pre5 s -> tstep fo pr rf f s s' ->
+  R5 s s' \/ (exists s2, R5 s s2 /\ s' = opened s2) \/ imm_step fo pr rf s s'.
+Proof. exact tstep_cls5. Qed.
+Check C11_token_step_outside_meta : forall fo pr rf f s s', Pre5 s -> tstep fo pr rf f s s' ->
+  R5 s s' \/ (exists s2, R5 s s2 /\ s' = opened s2) \/ imm_step fo pr rf s s'.
+
+(* a whole meta block seen from the non-meta context it was opened in *)
+Theorem C11_block_outside_meta : forall a w1, Pre5 a ->
+  R2 (length (code a)) (length (dict a)) (inner a) w1 -> flows w1 = flows a ->
+  R5 a (close_state w1 (cx a)).
+Proof. exact block_R5. Qed.
+Check C11_block_outside_meta : forall a w1, Pre5 a ->
+  R2 (length (code a)) (length (dict a)) (inner a) w1 -> flows w1 = flows a ->
+  R5 a (close_state w1 (cx a)).
+
+(* compile: data stack unchanged, heap extended by nil cells only - unless the source uses the
+   word `immediate` at its top level (outside meta blocks) *)
+Theorem C11_compile_quiet : forall fo pr rf fuel src s s',
+  wfm s -> cd_inv s -> no_user_imm (dict s) ->
+  compile fo pr rf fuel src s = ROk tt s' ->
+  (ds s' = ds s /\ exists k, heap s' = heap s ++ repeat CNil k) \/
+  (exists y z, bpath fo pr rf 0 (interned src (copened s)) y /\ depth y = S (depth s) /\
+               imm_step fo pr rf y z).
+Proof. exact compile_quiet. Qed.
+Check C11_compile_quiet : forall fo pr rf fuel src s s',
+  wfm s -> cd_inv s -> no_user_imm (dict s) ->
+  compile fo pr rf fuel src s = ROk tt s' ->
+  (ds s' = ds s /\ exists k, heap s' = heap s ++ repeat CNil k) \/
+  (exists y z, bpath fo pr rf 0 (interned src (copened s)) y /\ depth y = S (depth s) /\
+               imm_step fo pr rf y z).
+
+(* the build phase of eval or compile (any non-meta mode m) executes nothing outside meta blocks *)
+Theorem C11_build_quiet : forall fo pr rf m fuel src s s2,
+  m <> MMeta -> wfm s -> cd_inv s -> no_user_imm (dict s) ->
+  build1 fo pr rf fuel (S (depth s)) (interned src (mopened m s)) = ROk tt s2 ->
+  R5 (interned src (mopened m s)) s2 \/
+  (exists y z, bpath fo pr rf 0 (interned src (mopened m s)) y /\ depth y = S (depth s) /\
+               imm_step fo pr rf y z).
+Proof. exact build_quiet. Qed.
+Check C11_build_quiet : forall fo pr rf m fuel src s s2,
+  m <> MMeta -> wfm s -> cd_inv s -> no_user_imm (dict s) ->
+  build1 fo pr rf fuel (S (depth s)) (interned src (mopened m s)) = ROk tt s2 ->
+  R5 (interned src (mopened m s)) s2 \/
+  (exists y z, bpath fo pr rf 0 (interned src (mopened m s)) y /\ depth y = S (depth s) /\
+               imm_step fo pr rf y z).
+
+(* eval = the same quiet build phase, then the run of the compiled code, then the old context
+   with the instruction pointer moved.  (The literal equation with compile ;; run is not proved.) *)
+Theorem C11_eval_phases : forall fo pr rf fuel src s s',
+  wfm s -> cd_inv s -> no_user_imm (dict s) ->
+  eval fo pr rf fuel src s = ROk tt s' ->
+  (exists s2 s3,
+     build1 fo pr rf fuel (S (depth s)) (interned src (mopened MEval s)) = ROk tt s2 /\
+     R5 (interned src (mopened MEval s)) s2 /\
+     run_m fo rf (set_nested s2 (nested s)) = ROk tt s3 /\
+     s' = set_cx s3 (if mode_eqb (cmode (cx s)) MEval then set_ctx_ip (cx s) (ip s3) else cx s)) \/
+  (exists y z, bpath fo pr rf 0 (interned src (mopened MEval s)) y /\ depth y = S (depth s) /\
+               imm_step fo pr rf y z).
+Proof. exact eval_phases. Qed.
+Check C11_eval_phases : forall fo pr rf fuel src s s',
+  wfm s -> cd_inv s -> no_user_imm (dict s) ->
+  eval fo pr rf fuel src s = ROk tt s' ->
+  (exists s2 s3,
+     build1 fo pr rf fuel (S (depth s)) (interned src (mopened MEval s)) = ROk tt s2 /\
+     R5 (interned src (mopened MEval s)) s2 /\
+     run_m fo rf (set_nested s2 (nested s)) = ROk tt s3 /\
+     s' = set_cx s3 (if mode_eqb (cmode (cx s)) MEval then set_ctx_ip (cx s) (ip s3) else cx s)) \/
+  (exists y z, bpath fo pr rf 0 (interned src (mopened MEval s)) y /\ depth y = S (depth s) /\
+               imm_step fo pr rf y z).
+
+(* ================= non-vacuity ================= *)
+
+Example C11_boot_hypotheses : wfm boot /\ cd_inv boot /\ no_user_imm (dict boot) /\ mpre (opened boot).
+Proof. exact (conj boot_wfm (conj boot_cd (conj boot_no_user_imm opened_boot_mpre))). Qed.
+
+Example C11_block_is_literal :
+  ds_of (ev "5 #( 1 2 + #) +" boot) = Some [CInt 8] /\ ds_of (ev "5 3 +" boot) = Some [CInt 8].
+Proof. vm_compute. split; reflexivity. Qed.
+
+Example C11_block_defines_word_and_const :
+  new_dict (ev "#( : sq dup * ; 3 sq const nine 4 #) nine" boot) = Some [mkdent "nine" (DConst (CInt 9))] /\
+  ds_of (ev "#( : sq dup * ; 3 sq const nine 4 #) nine" boot) = Some [CInt 9; CInt 4].
+Proof. vm_compute. split; reflexivity. Qed.
+
+Example C11_block_cannot_use_variables :
+  (exists s, ev "var x #( x #)" boot = RErr EConst None s) /\
+  (exists s, ev "var x #( 1 ! x #)" boot = RErr EConst None s) /\
+  (exists s, ev "#( var y #)" boot = RErr EConst None s).
+Proof. exact ex_block_var_fails. Qed.
+
+Example C11_block_cannot_pop_outer_stack :
+  ds s9 = [CInt 9] /\ (exists s, ev "#( drop #)" s9 = RErr EUnderflow None s /\ ds s = [CInt 9]) /\
+  ds_of (ev "#( depth #)" s9) = Some [CInt 0; CInt 9].
+Proof. exact ex_block_sealed_stack. Qed.
+
+(* the hypotheses of C11_block / C11_block_inline on the block of "#( 1 2 + #) 7" with 9 on the
+   outer stack: the block compiles to one literal, the outer stack is untouched *)
+Example C11_block_nonvacuous :
+  wfm ta /\ cd_inv ta /\ cmode (cx ta) <> MMeta /\ o1 = opened ta /\
+  bpath fo0 pr0 1000 (S (depth ta)) (opened ta) o4 /\ anystep fo0 pr0 1000 o4 o5 /\ depth o5 <= depth ta /\
+  ds o5 = [CInt 9] /\ skipn (length (code ta)) (code o5) = [OLoadI64 3].
+Proof. exact ex_block_path. Qed.
+
+Example C11_compile_quiet_nonvacuous :
+  match cp "var x 1 ! x #( 2 3 * #) x +" s9 with
+  | ROk _ s => ds s = ds s9 /\ heap s = heap s9 ++ [CNil]
+  | _ => False
+  end.
+Proof. vm_compute. split; reflexivity. Qed.
+
+Example C11_s9_hypotheses : wfm s9 /\ cd_inv s9 /\ no_user_imm (dict s9) /\ ds s9 = [CInt 9].
+Proof. exact s9_wfm. Qed.
+
+(* rpatch / cpatch are needed: both ways of changing what is below the marks occur *)
+Example C11_prefix_changes_occur :
+  new_dict (ev "#( 1 const a #) #( 2 const a 3 const b #)" boot) =
+    Some [mkdent "a" (DConst (CInt 2)); mkdent "b" (DConst (CInt 3))] /\
+  match ev "late g : h g ; : g 5 ; #( h #)" boot with
+  | ROk _ s => ds s = [CInt 5] /\ nth_error (code s) 1 = Some (OCall 7)
+  | _ => False
+  end.
+Proof. exact prefix_changes_occur. Qed.
+
+Example C11_hidden_independent_nonvacuous : forall f, native_fn fo0 "depth" = Some f ->
+  f (sw [CInt 8] sm) = res_map (sw [CInt 8]) (f sm).
+Proof. exact depth_word_comm. Qed.
+
+(* the invariants used as hypotheses hold right after `#(` on the boot state / on the boot state *)
+Example C11_Pre2_nonvacuous : Pre2 (length (code boot)) (length (dict boot)) (opened boot).
+Proof. exact (Pre2_opened boot boot_wfm boot_cd). Qed.
+
+Example C11_Pre5_nonvacuous : Pre5 boot.
+Proof. exact boot_Pre5. Qed.
